@@ -222,6 +222,8 @@ pub enum Mut {
     ElemDel { idx: u16 },
     /// put an item / sequence delimiter in front of an element
     ElemDelim { idx: u16, seq: bool },
+    /// structure-aware (PDU inputs): change one length field (PDU, item or sub-item) by `delta`, or set it to `abs`
+    PduLen { idx: u16, delta: i16, abs: Option<u32> },
 }
 
 #[derive(Clone, Debug, Serialize, Deserialize)]
@@ -342,6 +344,27 @@ fn apply_muts(mut b: Vec<u8>, muts: &[Mut], ds_ts: Option<Ts>, base: usize) -> V
             }
         }
     }
+    // PDU length fields, located on the unmodified encoding
+    let pl: Vec<&Mut> = muts.iter().filter(|m| matches!(m, Mut::PduLen { .. })).collect();
+    if !pl.is_empty() {
+        let fields = pdu_length_fields(&b);
+        if !fields.is_empty() {
+            for m in pl {
+                if let Mut::PduLen { idx, delta, abs } = m {
+                    let (off, w) = fields[(*idx as usize * fields.len()) >> 16];
+                    if off + w <= b.len() {
+                        let cur = if w == 2 { u16::from_be_bytes([b[off], b[off + 1]]) as i64 } else { u32::from_be_bytes([b[off], b[off + 1], b[off + 2], b[off + 3]]) as i64 };
+                        let v = abs.map(|a| a as i64).unwrap_or(cur + *delta as i64).max(0);
+                        if w == 2 {
+                            b[off..off + 2].copy_from_slice(&(v.min(0xFFFF) as u16).to_be_bytes());
+                        } else {
+                            b[off..off + 4].copy_from_slice(&(v.min(u32::MAX as i64) as u32).to_be_bytes());
+                        }
+                    }
+                }
+            }
+        }
+    }
     for m in muts {
         let n = b.len();
         match m {
@@ -383,6 +406,45 @@ fn apply_muts(mut b: Vec<u8>, muts: &[Mut], ds_ts: Option<Ts>, base: usize) -> V
         }
     }
     b
+}
+
+/// (offset, width) of every length field in a stream of PDUs: PDU lengths, variable items,
+/// sub-items of presentation context and user information items, PDV item lengths
+fn pdu_length_fields(b: &[u8]) -> Vec<(usize, usize)> {
+    fn items(b: &[u8], mut p: usize, end: usize, depth: u8, out: &mut Vec<(usize, usize)>) {
+        while p + 4 <= end.min(b.len()) {
+            let ty = b[p];
+            let l = u16::from_be_bytes([b[p + 2], b[p + 3]]) as usize;
+            out.push((p + 2, 2));
+            let body = p + 4;
+            if depth == 0 && (ty == 0x20 || ty == 0x21 || ty == 0x50) {
+                let skip = if ty == 0x50 { 0 } else { 4 };
+                items(b, body + skip, body + l, 1, out);
+            }
+            p = body + l;
+        }
+    }
+    let mut out = vec![];
+    let mut p = 0;
+    while p + 6 <= b.len() {
+        let ty = b[p];
+        let l = u32::from_be_bytes([b[p + 2], b[p + 3], b[p + 4], b[p + 5]]) as usize;
+        out.push((p + 2, 4));
+        let end = (p + 6 + l).min(b.len());
+        match ty {
+            1 | 2 => items(b, p + 6 + 68, end, 0, &mut out),
+            4 => {
+                let mut q = p + 6;
+                while q + 4 <= end {
+                    out.push((q, 4));
+                    q += 4 + u32::from_be_bytes([b[q], b[q + 1], b[q + 2], b[q + 3]]) as usize;
+                }
+            }
+            _ => {}
+        }
+        p += 6 + l;
+    }
+    out
 }
 
 const SOP: &str = "1.2.840.10008.5.1.4.1.1.7";
@@ -665,10 +727,15 @@ fn json_input() -> BoxedStrategy<Input> {
     .boxed()
 }
 
+fn pdu_muts() -> BoxedStrategy<Vec<Mut>> {
+    let plen = (any::<u16>(), -8i16..=8, proptest::option::weighted(0.4, prop_oneof![4 => 0u32..12, 1 => Just(0xFFFFu32), 1 => Just(0xFFFF_FFFFu32), 1 => 0u32..70_000])).prop_map(|(idx, delta, abs)| Mut::PduLen { idx, delta, abs });
+    prop_oneof![1 => Just(vec![]), 5 => proptest::collection::vec(prop_oneof![2 => plen.clone(), 1 => mutation(false)], 1..=2), 1 => proptest::collection::vec(prop_oneof![plen, mutation(false)], 3..=5)].boxed()
+}
+
 fn pdu_input() -> BoxedStrategy<Input> {
     prop_oneof![
-        4 => (pduconv::pdu(false), muts(false)).prop_map(|(ir, muts)| Input::Pdu { ir, muts }),
-        2 => (pduconv::pdu(false), pduconv::pdu(false), muts(false)).prop_map(|(a, b, muts)| Input::Pdus { a, b, muts }),
+        4 => (pduconv::pdu(false), pdu_muts()).prop_map(|(ir, muts)| Input::Pdu { ir, muts }),
+        2 => (pduconv::pdu(false), pduconv::pdu(false), pdu_muts()).prop_map(|(a, b, muts)| Input::Pdus { a, b, muts }),
         1 => proptest::collection::vec(any::<u8>(), 0..40).prop_map(Input::Raw),
         1 => (1u8..8, any::<u32>(), proptest::collection::vec(any::<u8>(), 0..30)).prop_map(|(t, l, mut rest)| {
             let mut v = vec![t, 0];
@@ -739,6 +806,7 @@ fn check(c: &Case, obs: &mut Obs) {
                 "byte-mutation"
             }
         }
+        Input::Pdu { muts, .. } | Input::Pdus { muts, .. } if muts.iter().any(|m| matches!(m, Mut::PduLen { .. })) => "pdu-length-field-mutation",
         Input::Nest { depth, .. } => {
             if *depth >= 5000 {
                 "nesting>=5000"
